@@ -1,48 +1,15 @@
 import Driver.Common
 import AslModel.Rc
 import Gen.ShapesGen
+import AslModel.RcCompile
 /-! Model driver for C12: compiles a scenario's thread programs into atomic steps using the *recorded*
 operation shapes (`Gen/ShapesGen.lean`), enumerates all interleavings in the same depth-first order as
 the scheduler harness and prints the same summary line. -/
-open Driver AslModel.Rc Gen.Shapes
+open Driver AslModel.Rc Gen.Shapes AslModel.RcCompile
 
 namespace Driver.C12
 
 def findKind (n : String) : Option Kind := kinds.find? (·.name == n)
-
-/-- model object id of counter `cnt` of logical object `obj` -/
-def oid (k : Kind) (obj cnt : Nat) : Nat := obj * k.counters + cnt
-
-/-- shape events → model steps (releases are implicit in the model: they follow a decrement to 0) -/
-def evSteps (k : Kind) (roleObj : Nat → Nat) (evs : List Ev) : List Step :=
-  evs.filterMap fun e => match e with
-    | Ev.inc r c => some (Step.inc (oid k (roleObj r) c))
-    | Ev.dec r c => some (Step.dec (oid k (roleObj r) c))
-    | _ => none
-
-/-- compile one thread's program; `hs` = logical objects behind the thread's handles -/
-def compileOps (k : Kind) : List String → List Nat → List Step
-  | [], hs => hs.reverse.flatMap fun o => evSteps k (fun _ => o) k.dropNotLast
-  | op :: rest, hs =>
-    let n := hs.length
-    if n == 0 then compileOps k rest hs else
-    let cs := op.toList
-    let dig (c : Char) : Nat := c.toNat - '0'.toNat
-    match cs with
-    | ['c', i] =>
-      let o := hs.getD (dig i % n) 0
-      evSteps k (fun _ => o) k.copy ++ compileOps k rest (hs ++ [o])
-    | ['x'] =>
-      let o := hs.getD (n - 1) 0
-      evSteps k (fun _ => o) k.dropNotLast ++ compileOps k rest hs.dropLast
-    | ['a', i, j] =>
-      let i' := dig i % n
-      let j' := dig j % n
-      let od := hs.getD i' 0
-      let os := hs.getD j' 0
-      let shape := if i' == j' then k.assignSelf else if od == os then k.assignSameObj else k.assignDiff
-      evSteps k (fun r => if r == 0 then od else os) shape ++ compileOps k rest (hs.set i' os)
-    | _ => compileOps k rest hs
 
 def compileCounter : List String → List Step
   | [] => []
@@ -71,6 +38,7 @@ def invB (c : Cfg) : Bool :=
 def invisible : Step → Bool
   | Step.load _ => true
   | Step.store _ _ => true
+  | Step.use _ => true
   | _ => false
 
 partial def fuse (c : Cfg) (t : Nat) : Cfg :=
@@ -109,6 +77,8 @@ def sortStrs (l : List String) : List String := (l.toArray.qsort (· < ·)).toLi
 
 def scen (kind : String) (lim : Nat) (progs : List String) : String :=
   let mk (c : Cfg) (nctr : Nat) (wf : Bool) : String :=
+    -- thread-local steps without a hook point at the very start of a program happen before the first scheduling decision
+    let c := (List.range c.thrs.length).foldl fuse c
     let a := dfs lim nctr c {}
     let sched := min a.leaves lim
     let full := if a.leaves ≤ lim then 1 else 0
@@ -121,10 +91,8 @@ def scen (kind : String) (lim : Nat) (progs : List String) : String :=
   else match findKind kind with
     | none => "bad-op"
     | some k =>
-      let held0 := (List.range k.counters).map (oid k 0) ++ (List.range k.counters).map (oid k 1)
-      let thrs := progs.map fun p => ({ prog := compileOps k (splitOps p) [0, 1], held := held0, pending := none, tmp := 0 } : Thr)
-      let c := mkCfg (2 * k.counters) thrs [0] 1 [0]
-      mk c k.counters (thrs.all wfThr)
+      let c := scenCfg k (progs.map splitOps)
+      mk c k.counters (c.thrs.all wfThr)
 
 def step (_ : Unit) (ts : List String) : Unit × String :=
   match ts with
